@@ -130,6 +130,14 @@ class Ev:
                 a, b = self.ev(fn, n['l'], env, depth), self.ev(fn, n['r'], env, depth)
                 return sym('(%s)%s(%s)' % (show(a), '/' if op == 'Div' else '%', show(b)))
             raise Unknown('operator ' + op)
+        if k == 'Def':
+            c = self.F.fns.get(n['d'])
+            if c is not None and c.body is not None and depth > 0 and (c.raw.get('dk') or '').startswith(('Const', 'AssocConst')):
+                try:
+                    return self.ev(c, c.body, {}, depth - 1)
+                except Unknown:
+                    pass
+            return sym(n['d'].split('::')[-1])
         if k == 'Field':
             if n['n'] in ('start', 'end'):
                 try:
